@@ -133,24 +133,15 @@ static addrxlat_status c_get_page(const addrxlat_cb_t *cb, addrxlat_buffer_t *bu
 	uint64_t a = buf->addr.addr, base, size, blk, i;
 	unsigned as = (unsigned)buf->addr.as;
 	struct cpage *p;
-	/* the same function as Hist/ReadCache.synth_get_page / synth_byte (the layout depends on
-	 * the low 16 bits of the address only, the bytes on the whole address) */
-	if ((a / 0x8000) % 2 == 0) {
-		blk = a / 0x1000;
-		if (blk % 8 == 5) return ADDRXLAT_ERR_NODATA;
-		base = blk * 0x1000; size = 0x1000;
-	} else {
-		blk = a / 0x100;
-		if (blk % 8 == 3) return ADDRXLAT_ERR_NODATA;
-		base = blk * 0x100; size = 0x100;
-	}
+	/* the same function as Cb/CbCache.cb_page_source (compared on probe addresses by the check) */
+	blk = a / 0x100;
+	if (blk % 8 == 3) return ADDRXLAT_ERR_NODATA;
+	base = blk * 0x100; size = 0x100;
 	if (ncp >= MAXCP) return ADDRXLAT_ERR_NOMEM;
 	p = &cpages[ncp++];
 	p->data = malloc(size); p->size = size; p->released = 0;
 	for (i = 0; i < size; ++i)
-		p->data[i] = (unsigned char)(((base + i) * 13 + (uint64_t)as * 3 + 1
-					      + ((base + i) >> 16) * 7 + ((base + i) >> 31) * 5
-					      + ((base + i) >> 32) * 11 + ((base + i) >> 63) * 17) & 0xff);
+		p->data[i] = (unsigned char)(((base + i) * 13 + (uint64_t)as * 3 + 1) & 0xff);
 	++c_gets;
 	buf->addr.addr = base;
 	buf->size = size;
@@ -236,6 +227,23 @@ int main(int argc, char **argv)
 		addrxlat_ctx_t *ctx;
 		int nl = 0, first = 1, i;
 		if (line[0] == 'C') { cache_history(line); continue; }
+		if (line[0] == 'Y') {
+			/* Y <as>:<addr>: what this driver's page source answers */
+			unsigned as; unsigned long long addr;
+			addrxlat_buffer_t b;
+			memset(&b, 0, sizeof b);
+			ncp = 0;
+			if (sscanf(line + 2, "%x:%llx", &as, &addr) != 2) { printf("?\n"); continue; }
+			b.addr.as = (addrxlat_addrspace_t)as; b.addr.addr = addr;
+			if (c_get_page(NULL, &b) != ADDRXLAT_OK) { printf("none\n"); continue; }
+			{
+				uint64_t v = 0; int i;
+				for (i = 7; i >= 0; --i) v = (v << 8) | ((const unsigned char *)b.ptr)[i];
+				printf("%" PRIx64 ":%zx:%" PRIx64 "\n", (uint64_t)b.addr.addr, b.size, v);
+			}
+			free(cpages[0].data); ncp = 0;
+			continue;
+		}
 		if (line[0] == 'L') {
 			/* L <n> <ostype|-> <dump file> <kvaddr> ...: a dump object with n layers that
 			 * override nothing stacked on its translation context BEFORE the file is opened
